@@ -12,6 +12,8 @@ from vf.stubs.rope import Rope, StructShim  # noqa: E402
 
 TIER = os.environ.get('VERIF_TIER', 'quick')
 THOROUGH = TIER == 'thorough'
+SHARD_I = int(os.environ.get('VF_SHARD_I', '0'))
+SHARD_N = int(os.environ.get('VF_SHARD_N', '1'))
 
 REAL_FORMATS = {}
 for _m in RepC.__members__.values():
@@ -35,3 +37,20 @@ def lits(x):
             return None
         out.append(t[1])
     return out
+
+
+def pad_info(tokens):
+    """tokens: what follows the body inside a segment. -> (number of pad bytes, value of the last one) or (-1, 0)
+    if something other than literal / repeated bytes is there."""
+    n = 0
+    last = 0
+    for t in tokens:
+        if t[0] == 'b':
+            n = n + 1
+            last = t[1]
+        elif t[0] == 'rep':
+            n = n + t[2]
+            last = t[1]
+        else:
+            return (-1, 0)
+    return (n, last)
